@@ -201,6 +201,9 @@ def rule_tt_comm(ctx: Ctx) -> None:
     p = ctx.prog
     ctx.assumptions.add('A3')
     ctx.rule('TT-SYM', 'triangular (symmetric=True) communication is used only for values that are symmetric matrices', floor=11)
+    pack_rule = ctx.prop == 'C13'
+    if pack_rule:
+        ctx.rule('SYM-PACK', 'every symmetric matrix that is communicated (factors, inverses) is packed exactly when symmetric_factors and symmetry_aware', floor=4)
     ctx.rule('TT-BUF', 'receive placeholders of the inverse and gradient broadcasts have the sizes and dtype of the value the source computed', floor=12)
     for tag, cls, flags in (('eigen', EIG, {'self.symmetric_factors': True, 'self.prediv_eigenvalues': False}),
                             ('eigen+prediv', EIG, {'self.symmetric_factors': True, 'self.prediv_eigenvalues': True}),
@@ -242,6 +245,11 @@ def rule_tt_comm(ctx: Ctx) -> None:
                           '(eigenvector matrices are orthogonal, not symmetric)', node)
             else:
                 ctx.ok('TT-SYM', fn, f'[{tag}] {m}: dense communication of {v}', node)
+            if pack_rule and isinstance(v, TV) and 'sym' in v.quals and len(v.axes) == 2 and v.axes[0] == v.axes[1]:
+                okp = sym.replace(' ', '') in ('self.symmetric_factorsandself.symmetry_aware', 'self.symmetry_awareandself.symmetric_factors')
+                ctx.check(okp, 'SYM-PACK', fn, f'[{tag}] {m}: symmetric matrix {v} packed when symmetry-aware', norm(node)[:100],
+                          f'[{tag}] {m} communicates the symmetric matrix {v} with symmetric={sym}: in symmetry-aware mode n(n+1)/2 elements must be sent, '
+                          'i.e. symmetric=self.symmetric_factors and self.symmetry_aware', node)
         if len(src_comm) != len(rcv_comm):
             ctx.violate('TT-BUF', p.lookup_method(cls, 'broadcast_a_inv'), f'{tag} count', f'[{tag}] source issues {len(src_comm)} broadcasts, a receiver with empty slots issues {len(rcv_comm)}', None)
             continue
@@ -283,6 +291,10 @@ def rule_tt_comm(ctx: Ctx) -> None:
             v, sym = ev[3][1], ev[3][2]
             ctx.check(isinstance(v, TV) and 'sym' in v.quals and v.axes[0] == v.axes[1], 'TT-SYM', f, f'{m}: {v} symmetric={sym}', m,
                       f'{m} communicates {v} with symmetric={sym}', ev[2])
+            if pack_rule:
+                okp = sym.replace(' ', '') in ('self.symmetric_factorsandself.symmetry_aware', 'self.symmetry_awareandself.symmetric_factors')
+                ctx.check(okp, 'SYM-PACK', f, f'{m}: factor packed when symmetry-aware', m + ' pack',
+                          f'{m} reduces the symmetric factor {v} with symmetric={sym}; in symmetry-aware mode it must be packed (symmetric=self.symmetric_factors and self.symmetry_aware)', ev[2])
         if not cm:
             ctx.violate('TT-SYM', f, m, f'{m}: no communication of the factor found', f.node)
 
